@@ -63,8 +63,9 @@ class LabeledParagraph(Component):
         text = re.sub(
             r"\n(?!\n)",
             "\n" + line_prefix + text_prefix,
-            "\n".join(textwrap.wrap(self._text, text_width)),
-        )
+            # an escaped "<" occupies one column: wrap with a one-character stand-in
+            "\n".join(textwrap.wrap(self._text.replace("\\<", "\0"), text_width)),
+        ).replace("\0", "\\<")
 
         # Add the total length of the style tags ("<b>", ...)
         label_width = text_offset + style_tag_length
